@@ -577,6 +577,22 @@ class SimCondition(object):
                     self._lock.acquire()
         return token[0]
 
+    def wait_for(self, predicate, timeout=None):
+        endtime = None
+        waittime = timeout
+        result = predicate()
+        while not result:
+            if waittime is not None:
+                if endtime is None:
+                    endtime = self._k.now + waittime
+                else:
+                    waittime = endtime - self._k.now
+                    if waittime <= 0:
+                        break
+            self.wait(waittime)
+            result = predicate()
+        return result
+
     def notify(self, n=1):
         if not self._owned():
             raise RuntimeError("cannot notify on un-acquired lock")
